@@ -229,7 +229,7 @@ def gen_tree(rng, dim, spaces, tier, pairing):
     if c < 0.55 and anyvec:
         F, G = rng.choice(anyvec), rng.choice(anyvec)
         return OP("dot", VF(F, s1), VF(G, s2)), "vf.vf"
-    if c < 0.61 and vec["hcurl"]:
+    if c < 0.61 and vec["hcurl"] and dim >= 2:
         return MUL(OP("curl", VF(vec["hcurl"][0], s1)), SF(v, s2)) if dim == 2 else \
             OP("dot", OP("curl", VF(vec["hcurl"][0], s1)), OP("grad", SF(v, s2))), "curl"
     if c < 0.67 and vec["hdiv"]:
@@ -309,6 +309,13 @@ def plus_class(case):
 def feature(case):
     t = case["tree"]
     pc = plus_class(case)
+    if case["dim"] == 1 and pc in ("affine", "nonaffine-analytical") and any(
+            n["k"] == "op" and n["name"] in ("grad", "curl", "div", "laplace") and "+" in sides_of(n) for n, _ in walk(t)):
+        return "1d-analytical-plus-mapping"
+    if case["dim"] == 1 and pc in ("affine", "nonaffine-analytical") and any(
+            n["k"] in ("sf", "vf", "comp") and n.get("s") == "+" and case["spaces"][n["f"]]["kind"] in ("l2", "hdiv", "hcurl")
+            for n, _ in walk(t)):
+        return "1d-analytical-plus-mapping"
     for n, under in walk(t):
         if n["k"] == "comp" and n.get("s") in "-+":
             return "component-of-restricted-vector"
@@ -478,6 +485,11 @@ def corpus_cases():
         MUL(OP("laplace", SF("w", "+")), SF("v", "-")), "laplace", "symbolic|symbolic")
     add(2, *S(), {"F": {"kind": "hcurl", "vector": True}, "v": {"kind": "h1", "vector": False}},
         MUL(CP("F", 0, "-"), SF("v", "+")), "comp*v", "symbolic|symbolic")
+    # 1-D patches with analytical mappings (the interface is a point)
+    add(1, cat("AffineMapping", "F1", c1=(1, 1), a11=(2, 1)), cat("AffineMapping", "F2", c1=(3, 1), a11=(6, 1)), h1,
+        OP("grad", SF("u", "+")), "grad", "affine|affine")
+    add(1, cat("AffineMapping", "F1", c1=(1, 1), a11=(2, 1)), cat("AffineMapping", "F2", c1=(3, 1), a11=(6, 1)), h1,
+        MUL(DD(0, SF("u", "+")), DD(0, SF("v", "-"))), "dxi*dxj", "affine|affine")
     # refusals: functions without restriction under an operator; dz of restricted functions in 3-D
     add(2, *S(), h1, OP("dot", OP("grad", SF("u", "0")), OP("grad", SF("v", "+"))), "unrestricted:grad", "symbolic|symbolic")
     add(2, *S(), {"E": {"kind": "hcurl", "vector": True}, "v": {"kind": "h1", "vector": False}},
@@ -519,9 +531,19 @@ def dc_corpus():
     for cont in VALID_CONTAINERS:
         add("Contravariant", 2, S, cont, [a, {"k": "mul", "a": [x1, du]}], "well-formed")
         add("Covariant", 2, polar, cont, [du, b], "well-formed")
+    add("Contravariant", 2, S, "tuple", [du, b], "well-formed")          # a derivative atom as an entry
+    add("Covariant", 2, S, "list", [du, b], "well-formed")
     add("Jacobian", 1, S, "none", [], "well-formed")
     add("Jacobian", 3, S, "none", [], "well-formed")
     add("Covariant", 1, S, "tuple", [du if False else a], "well-formed")
     add("Contravariant", 3, S, "Tuple", [a, b, x1], "well-formed")
     add("Covariant", 3, S, "Matrix", [a, b, c], "well-formed")
     return out
+
+
+def dc_entries_class(case):
+    """'derivative-atoms' when an entry of the vector IS a derivative atom dx_i(u) (not inside a product or sum)"""
+    for e in case["dc"].get("entries", []):
+        if e.get("k") == "at" and e.get("t") == "fld" and any(e.get("al", [])):
+            return "derivative-atoms"
+    return "plain"
